@@ -17,18 +17,18 @@ pub struct Family {
 impl Family {
     /// bound on the sequence length per tier
     pub fn maxlen(&self, thorough: bool) -> u32 {
-        match (self.name, thorough) {
-            ("assert-2-sizes", true) => 5,
-            ("frozen-constant-body", false) => 4,
-            ("symbol-named-like-a-parameter", false) => 4,
-            ("subrule-operand", false) => 4,
-            ("late-flipping-boolean-constant", false) => 5,
-            ("late-flipping-boolean-constant", true) => 6,
-            ("subrule-operand", true) => 5,
-            ("symbol-named-like-a-parameter", true) => 5,
-            ("frozen-constant-body", true) => 5,
-            (_, false) => 3,
-            (_, true) => 4,
+        // quick bound per family; thorough = one item longer where the alphabet is small (<= 9 items)
+        let quick: u32 = match self.name {
+            "frozen-constant-body" | "symbol-named-like-a-parameter" | "subrule-operand" => 4,
+            "late-flipping-boolean-constant" => 5,
+            _ => 3,
+        };
+        if !thorough {
+            quick
+        } else if self.items.len() <= 9 {
+            quick + 1
+        } else {
+            4
         }
     }
 }
@@ -303,9 +303,13 @@ pub fn certificate(prog: &Prog, obs: &Obs, l: &mut Local) -> Option<String> {
 pub const SWITCHES: [(bool, bool); 4] = [(true, true), (false, true), (true, false), (false, false)];
 
 pub fn judge(prog: &Prog, family: &str, budgets: &[usize], l: &mut Local) {
+    judge_sw(prog, family, budgets, &SWITCHES, l)
+}
+
+pub fn judge_sw(prog: &Prog, family: &str, budgets: &[usize], switches: &[(bool, bool)], l: &mut Local) {
     let src = prog.render();
     let mut any_multi_pass = false;
-    for (os, om) in SWITCHES {
+    for (os, om) in switches.iter().copied() {
         for b in budgets {
             let opts = Opts { iters: *b, opt_static: os, opt_matcher: om, defines: vec![] };
             l.eval();
@@ -404,7 +408,9 @@ pub fn run(ctx: &Ctx) -> Report {
         "twelve rule families with value-dependent encodings (assert cascades with 2 and 3 sizes, typed-width cascade, pc-relative, far-is-short with no/oscillating fixed points, tie next to a cascade) x all item sequences up to a length over 15 items x iteration budgets x the 4 optimisation-switch combinations, plus the skeleton grid (forward chains of length 0..12, with and without an oscillator) x budgets 1..30 x 4; every claimed success is re-derived from its own final symbol values and instruction sizes (certificate). Non-trivial = program that needed >= 2 passes under some configuration; distinct by program text. states = distinct (program, passes, bits) final states certified, transitions = passes executed.",
     );
     let fams = families();
-    let budgets: Vec<usize> = if ctx.thorough { (1..=30).collect() } else { quick_budgets() };
+    // sequence families: budgets around the pass counts that occur (1..6), the default and its neighbour, and a large
+    // one; the skeleton grid and the directed family below use every budget 1..30
+    let budgets: Vec<usize> = if ctx.thorough { vec![1, 2, 3, 4, 5, 6, 10, 11, 30] } else { quick_budgets() };
     let mut levels = vec![];
     for (fi, f) in fams.iter().enumerate() {
         let k = f.items.len() as u64;
@@ -412,11 +418,13 @@ pub fn run(ctx: &Ctx) -> Report {
         let maxlen: u32 = f.maxlen(ctx.thorough);
         let n = seq_count(k, maxlen);
         let b = &budgets;
+        // quick: optimisations both on / both off (C08 covers the mixed combinations); thorough: all four
+        let sw: &[(bool, bool)] = if ctx.thorough { &SWITCHES } else { &[(true, true), (false, false)] };
         rep.absorb(par_run(n, |i, l| {
             let seq = seq_decode(i, k, maxlen);
-            judge(&prog_of(f, &seq), f.name, b, l);
+            judge_sw(&prog_of(f, &seq), f.name, b, sw, l);
         }));
-        levels.push(json!({"family": f.name, "max_len": maxlen, "programs": n, "runs": n * 4 * budgets.len() as u64}));
+        levels.push(json!({"family": f.name, "max_len": maxlen, "programs": n, "runs": n * (if ctx.thorough { 4 } else { 2 }) * budgets.len() as u64}));
     }
     // skeleton grid
     let all_budgets: Vec<usize> = (1..=30).collect();
